@@ -59,6 +59,9 @@ type DB struct {
 
 	Hook StepHook
 	Rng  *rand.Rand
+	// OnIntent, if set, is called with the image a committing transaction is
+	// about to produce, before its first commit-related I/O.
+	OnIntent func(newImage *ref.Image)
 
 	// Split controls delivery of journal/WAL writes: "whole" or "split4k".
 	Split string
@@ -295,6 +298,11 @@ func (c *Conn) RunRollbackTx(spec RollbackSpec) (res TxResult) {
 		nm.Set(p, d.RandPage())
 	}
 	nm.Set(1, ref.MakePage1(d.PageSize, spec.NewPageN, spec.WALHeader, d.Change, d.RandPage()))
+	if d.OnIntent != nil && spec.Outcome == "commit" {
+		d.OnIntent(nm)
+	} else if d.OnIntent != nil && spec.Outcome == "rollback" {
+		d.OnIntent(old) // a rolled back journal transaction may consume a TXID with the same image
+	}
 
 	// Journal: create or open.
 	var jf *drv.File
